@@ -14,6 +14,7 @@ import (
 	"github.com/bufbuild/verifharness/internal/reg"
 
 	_ "github.com/bufbuild/verifharness/internal/pathescape"
+	_ "github.com/bufbuild/verifharness/internal/storagemodel"
 )
 
 func main() {
